@@ -102,7 +102,8 @@ class Closure:
         self.defaults = defaults
         self.kwdefaults = kwdefaults
         self.__name__ = name
-        self.__qualname__ = name
+        outer = getattr(getattr(frame, "fn", None), "__qualname__", None)
+        self.__qualname__ = f"{outer}.<locals>.{name}" if outer else name
         self.is_async = isinstance(node, ast.AsyncFunctionDef)
 
     def __call__(self, *args, **kwargs):
